@@ -67,8 +67,8 @@ def dep_invalidation_propagates(ctx):
         else:
             good = []
             for bb, t in calls_in(a, Rinv, lambda n: n in req_fanout):
-                agg = direct_msg_aggregate(a, t["args"][2]) if len(t["args"]) > 2 else None
-                if agg and agg[1]["rv"]["variant"] == "Invalidated" and "msg" in kind_of_operand(a, agg_field_op(agg[1], "kind")) \
+                msg = resolve_msg(a, t["args"][2]) if len(t["args"]) > 2 else None
+                if msg and msg.variant == "Invalidated" and "msg" in msg.kinds \
                         and "msg" in kind_of_operand(a, t["args"][1]) and is_awaited(a, bb) \
                         and not conditions_within(dominating_conditions(a, bb, Rinv), [(cond_is_insert_result("unavailable_dependencies"), True), (cond_len_eq_one("unavailable_dependencies"), True)]):
                     good.append(bb)
@@ -89,9 +89,9 @@ def notifier(ctx):
         w_ex = [bb for (wb, bb, st) in r.field_writes("executed") if wb is b and bb in G and st["rv"]["k"] == "use" and is_const(st["rv"]["op"], "false")]
         sends = []
         for bb, t in calls_in(b, G, lambda n: n in req_fanout):
-            agg = direct_msg_aggregate(b, t["args"][2]) if len(t["args"]) > 2 else None
-            if agg and agg[1]["rv"]["variant"] == "Invalidated" and is_awaited(b, bb) and _must_pass(b, G, bb):
-                k1 = kind_of_operand(b, agg_field_op(agg[1], "kind"))
+            msg = resolve_msg(b, t["args"][2]) if len(t["args"]) > 2 else None
+            if msg and msg.variant == "Invalidated" and is_awaited(b, bb) and _must_pass(b, G, bb):
+                k1 = msg.kinds
                 k2 = kind_of_operand(b, t["args"][1])
                 if "param" in k1 and "param" in k2:
                     sends.append(bb)
